@@ -252,11 +252,13 @@ class FnFlow:
         if srcs and _norm_add(self.derived.setdefault(name, set()), srcs):
             self.changed = True
 
-    def _add_sink(self, srcs, kind0, loc):
+    def _add_sink(self, srcs, kind0, loc, allow_computed=False):
         for (p, o, c) in srcs:
-            if c == "c":
+            if c == "c" and not allow_computed:
                 continue
             kind_ = kind0
+            if c == "c":
+                o = None
             if kind0 in CLASS_KINDS:
                 kind_ = kind0 + ":" + {"d": "raw", "s": "scalar-decoded", "f": "field-decoded"}[c]
             s = self.sinks.setdefault(p, set())
@@ -308,6 +310,26 @@ class FnFlow:
                     self._define_lhs(x[2], s)
                 elif k == "call":
                     self._call(x)
+        # conditions of ARG_CHECK / ARG_CHECK_VOID: which parameter contents can decide that the illegal callback fires?
+        for b in fn.blocks.values():
+            if b.cond is None or not b.term:
+                continue
+            if not any(m in ("ARG_CHECK", "ARG_CHECK_VOID") for m in b.term.get("macros", [])):
+                continue
+            c = strip(b.cond)
+            while kind(c) == "un" and c[1] == "!":
+                c = strip(c[2])
+            if kind(c) == "var":
+                continue                      # NULL test of a pointer / plain flag
+            if kind(c) == "bin" and c[1] in ("==", "!=") and (is_int(c[2], 0) or is_int(c[3], 0)) and \
+                    kind(strip(c[2] if is_int(c[3], 0) else c[3])) == "var":
+                continue                      # p != NULL
+            # only what the condition *reads through* a pointer counts (the pointer value itself is not input contents)
+            srcs = set()
+            for x in walk(b.cond):
+                if kind(x) in ("index", "deref", "call") or (kind(x) == "member" and kind(strip(x[1])) == "deref"):
+                    srcs |= self.src(x)
+            self._add_sink(srcs, "abort_cond", b.term["loc"], allow_computed=True)
         return self.changed
 
     def _call(self, c):
